@@ -291,6 +291,31 @@ static bool accessorHelper(Function &F) {
   return indexed;
 }
 
+// (E) element helpers: a small loop-free call-free helper that some caller hands the address of an ARRAY ELEMENT of
+// aggregate type selected by a run-time index (`helper(&ks->schedule[index], ...)`): the access to the walked array
+// happens in the helper.  Inlined so that the walk (which element, in which order) is visible in the walking loop.
+static bool elementHelper(Function &F) {
+  if (hasLoop(F) || realInsts(F) > 60) return false;
+  for (Instruction &I : instructions(F))
+    if (isRealCall(I)) return false;
+  for (User *U : F.users()) {
+    auto *CB = dyn_cast<CallBase>(U);
+    if (!CB || CB->getCalledFunction() != &F) continue;
+    for (Value *A : CB->args()) {
+      if (!A->getType()->isPointerTy()) continue;
+      Value *V = A->stripPointerCasts();
+      auto *G = dyn_cast<GetElementPtrInst>(V);
+      if (!G || !G->getResultElementType()->isAggregateType()) continue;
+      if (!G->getSourceElementType()->isArrayTy() && G->getNumIndices() != 1) continue;
+      bool var = false;
+      for (Value *Ix : G->indices())
+        if (!isa<ConstantInt>(Ix)) var = true;
+      if (var) return true;
+    }
+  }
+  return false;
+}
+
 static bool selfRecursive(Function &F) {
   for (Instruction &I : instructions(F))
     if (auto *CB = dyn_cast<CallBase>(&I))
@@ -344,6 +369,8 @@ int main(int argc, char **argv) {
       chosen[&F] = "L loop-free call-free accessor helper (loads / stores at pointer parameter + offset parameter)";
     else if (!hasLoop(F) && varLenMemOnParam(F))
       chosen[&F] = "M loop-free helper with a variable-length memcpy/memset on a parameter";
+    else if (elementHelper(F))
+      chosen[&F] = "E loop-free call-free helper handed the address of a run-time-indexed array element";
   }
   // (A) hardware probes: internal helpers that contain inline assembly (CPUID / XGETBV wrappers), and internal
   // helpers that call such a helper, are inlined so that the probe is one function again
